@@ -55,7 +55,7 @@ func (P *Prog) envelopeRoles() *envRoles {
 			e.hashAcc = c
 		}
 	}
-	if e.rules == nil || e.digest == nil || e.setter == nil || e.hashAcc == nil {
+	if e.rules == nil || e.digest == nil || e.hashAcc == nil {
 		undecidedf("anchor not found: hash-envelope helpers (rules:%v digest:%v setter:%v accessor:%v)", e.rules != nil, e.digest != nil, e.setter != nil, e.hashAcc != nil)
 	}
 	return e
@@ -72,10 +72,14 @@ func runC12(r *Report, tier string) {
 	r.assumes("the Sign1 helper and Sign1Message.Verify obey C01-C04/C20 (checked there)", "maps.Clone returns a fresh map (shallow)")
 
 	E := P.envelopeRoles()
-	r.analysed(E.sign, E.verify, E.rules, E.digest, E.setter, E.hashAcc)
+	r.analysed(E.sign, E.verify, E.rules, E.digest, E.hashAcc)
+	if E.setter != nil {
+		r.analysed(E.setter)
+	}
 	sign1 := P.mustFn("Sign1")
 
 	// R12.1 / R12.3 -----------------------------------------------------------
+	setterMissing := false
 	nsx := 0
 	for _, x := range P.factsOf(E.sign).exits {
 		if x.kind == exitFailure {
@@ -100,8 +104,24 @@ func runC12(r *Report, tier string) {
 		// protected map is the setter's result on ($2.Protected, &payload)
 		pv := projectField(hdr, "Protected")
 		op := r.ob("R12.1", id+":protected-from-setter", E.sign, x.ret, "Headers.Protected handed to Sign1 is the setter's result over the caller's protected map and the payload")
-		okP := pv.Op == "call" && pv.S == shortFn(E.setter) && len(pv.Args) == 2 && pv.Args[0].String() == "$2.Protected"
-		op.check(okP, pv.String(), "Headers.Protected = "+pv.String())
+		if E.setter == nil {
+			// no setter function: the map must at least be a fresh one; whether
+			// it carries 258/259/260 as required cannot be read off a setter
+			var nonFresh []string
+			for _, l := range P.effects.originsOf(pv, nil, 0) {
+				if l.Kind != "fresh" {
+					nonFresh = append(nonFresh, l.String())
+				}
+			}
+			if len(nonFresh) > 0 {
+				op.fail("the protected map handed to Sign1 is not a fresh map: it may be the caller's (" + strings.Join(nonFresh, ", ") + "): " + truncate(pv.String(), 160))
+			} else {
+				setterMissing = true
+			}
+		} else {
+			okP := pv.Op == "call" && pv.S == shortFn(E.setter) && len(pv.Args) == 2 && pv.Args[0].String() == "$2.Protected"
+			op.check(okP, pv.String(), "Headers.Protected = "+pv.String())
+		}
 		uv := projectField(hdr, "Unprotected")
 		r.ob("R12.1", id+":unprotected-untouched", E.sign, x.ret, "Headers.Unprotected handed to Sign1 is the caller's map (validated below)").check(uv.String() == "$2.Unprotected", uv.String(), "Headers.Unprotected = "+uv.String())
 		// facts: digest check and rules on the same headers value
@@ -131,7 +151,14 @@ func runC12(r *Report, tier string) {
 		}
 	}
 	r.floor("R12.1", nsx, 1, "success exits of SignHashEnvelope")
-	c12Setter(r, E)
+	if E.setter != nil {
+		c12Setter(r, E)
+	}
+	defer func() {
+		if setterMissing {
+			undecidedf("anchor not found: the function that builds the envelope's protected map (258/259/260 placement cannot be decided)")
+		}
+	}()
 
 	// R12.2 ------------------------------------------------------------------
 	{
